@@ -220,6 +220,11 @@ impl<'a> SigningConfig<'a> {
 /// The default chunk size for partial packets.
 pub const DEFAULT_PARTIAL_CHUNK_SIZE: u32 = 1024 * 512;
 
+/// The largest length that the partial body length encoding can express.
+///
+/// Ref <https://www.rfc-editor.org/rfc/rfc9580.html#section-4.2.1.4>
+const MAX_PARTIAL_CHUNK_SIZE: u32 = 1 << 30;
+
 impl Builder<'_, DummyReader> {
     /// Source the data from the given file path.
     pub fn from_file(path: impl AsRef<Path>) -> Self {
@@ -766,11 +771,17 @@ impl<'a, R: Read, E: Encryption> Builder<'a, R, E> {
     ///
     /// Due to the restrictions on partial packet lengths, this size
     /// - must be larger than `512`,
-    /// - must be a power of 2.
+    /// - must be a power of 2,
+    /// - must be at most `2^30`.
     ///
     /// Defaults to [`DEFAULT_PARTIAL_CHUNK_SIZE`].
     pub fn partial_chunk_size(&mut self, size: u32) -> Result<&mut Self> {
         ensure!(size >= 512, "partial chunk size must be at least 512");
+        ensure!(
+            size <= MAX_PARTIAL_CHUNK_SIZE,
+            "partial chunk size must be at most {}",
+            MAX_PARTIAL_CHUNK_SIZE
+        );
         ensure!(
             size.is_power_of_two(),
             "partial chunk size must be a power of two"
